@@ -156,6 +156,19 @@ def case_write(case):
         bits, mask, shift = 24, 0xFF << 8, 8
     f = frame.ForwardFrame(bits, v)
     where = "%s(%r) into %d-bit %#x" % (kind, num, bits, v)
+    # read the frame BEFORE writing too: reading must be a function of the frame's current bits, not of what the
+    # same frame object held when it was last looked at
+    try:
+        pre_a = address.from_frame(f)
+        pre_i = address.instance_from_frame(f)
+        exp_a = ref_gear_addr(v >> 9) if bits == 16 else ref_device_addr(v)
+        if describe(pre_a) != exp_a:
+            out.append(("C04:partition:%d" % bits, "%s: before the write from_frame gave %r, standard says %r"
+                        % (where, describe(pre_a), exp_a)))
+        if bits == 24 and describe_inst(pre_i) != ref_instance((v >> 8) & 0xFF):
+            out.append(("C04:instance-partition", "%s: before the write instance_from_frame gave %r" % (where, describe_inst(pre_i))))
+    except Exception as e:  # noqa
+        return [("C04:read-raised:%s" % type(e).__name__, "%s: %r" % (where, e))]
     try:
         o.add_to_frame(f)
     except Exception as e:  # noqa
@@ -183,7 +196,9 @@ def case_write(case):
                     out.append(("C04:event-frame-has-address", "%s: bit 16 clear but from_frame gave %r" % (where, describe(r))))
             else:
                 if describe(r) != (kind, num):
-                    out.append(("C04:address-readback", "%s: read back %r" % (where, describe(r))))
+                    stale = describe(r) == describe(pre_a) and describe(pre_a) != (kind, num)
+                    out.append(("C04:address-readback" + (":stale-after-rewrite" if stale else ""),
+                                "%s: read back %r%s" % (where, describe(r), " (what the frame held BEFORE the write)" if stale else "")))
                 elif not (r == o) or (r != o):
                     out.append(("C04:address-readback-not-equal:" + kind, "%s: read-back object does not compare equal" % where))
     except Exception as e:  # noqa
